@@ -1,6 +1,6 @@
 import Holpy.C06.Model
 import Holpy.C06.Gen
-import Holpy.C06.Proofs4
+import Holpy.C06.Proofs8
 /-
 C06 — property theorems (statements here, lemmas in Proofs*.lean).  They are about the model of
 `prover/z3wrapper.py` / `prover/sympywrapper.py` WITH fixes/C06-*.patch, for every field `K`
@@ -84,7 +84,7 @@ example (O : Oracle Rat) (σ : String → Val Rat) (F) (hσ : σ "ry" = vtoReal 
     subst this; subst hx; exact hσ
   · simp at hx
 
-/-- Soundness of `solve` (partial: see below).  If Z3 is right that the assertion set built by
+/-- (superseded by `solve_sound`; kept as the pinned intermediate statement) Soundness of `solve` (partial: see below).  If Z3 is right that the assertion set built by
 `solve_core` is unsatisfiable (for every interpretation of x / 0, of the constants and of the
 function symbols), then under every valuation the premises imply the conclusion in HOL —
 including the cases where premises or the conclusion were untranslatable and dropped (their HOL
@@ -135,6 +135,57 @@ example (Q : Quant Rat) : ∃ zs st', solveCoreFull [("x", .nat)] exAs exC = .ok
     simp only [exAs, List.mem_cons, List.mem_nil_iff, or_false] at hA
     rcases hA with rfl | rfl <;> rfl
   · rfl
+
+/-- The names `convert` generates are fresh.  Starting from tables satisfying the invariant `Inv`
+(as `solve_core`'s initial tables do: `inv_init`), on a term whose free variables are declared in
+`vars`: the invariant is kept — auxiliary reals `rx` differ from each other and from every declared
+name, each recorded `k ≥ 0` is about a declared nat variable, a binder name that is neither declared
+nor an auxiliary real, or an auxiliary real — and the result is capture-free (`noCapture`: every
+binder's name differs from the names of the enclosing binders and from every constant in its body,
+so z3py's abstraction of the named constant binds exactly the intended occurrences) with only
+declared variables and auxiliary reals as constants.  (The seeded changes C06-m1/m3 break exactly
+this.)  The bounded search of `variantName` fails instead of returning a used name. -/
+theorem convert_names_fresh (vars : List (String × Ty)) (t : H) (st st' : St) (res : Except Err R)
+    (hs : t.scoped vars = true) (hi : Inv vars [] st) (h : convert t st = (res, st')) :
+    Inv vars [] st' ∧ ∀ r, res = .ok r →
+      r.toZ.noCapture [] = true ∧ ∀ c ∈ r.toZ.constNames, c ∈ vars.map (·.1) ∨ c ∈ st'.toReal.map (·.2) :=
+  convert_inv hs hi h
+
+/-- ?x::nat. !x::nat. B0 ≤ B1 with the free variable x declared: the binders get x1 and x2 -/
+example : ∃ r st', convert (.ex "x" .nat (.all "x" .nat (.le (.bv 0) (.bv 1))))
+      { varNames := ["x"], assms := [], toReal := [] } = (.ok r, st')
+    ∧ r.toZ.noCapture [] = true ∧ st'.varNames = ["x", "x1", "x2"] := ⟨_, _, rfl, rfl, rfl⟩
+
+/-- Soundness of `solve`, under the single assumption that the solver's `unsat` is right
+(`Z3Correct`).  If `solve` returns True for premises As and conclusion C whose free variables are
+the declared `vars`, then in every standard model — any field K with its order for `real` (the
+only law used: of_nat n ≥ 0), the standard quantifier ranges over any carriers `U` for the type
+variables, any interpretation σ of the variables with nat variables in ℕ, F of the function and set
+variables, O of untranslatable subterms and of uminus on nat — the premises imply the conclusion. -/
+theorem solve_sound {K : Type} (N : Num K) (Q : Quant K) (U : String → Nat → Prop) (hQ : Std Q U)
+    (hcast : ∀ n : Int, 0 ≤ n → N.le (N.ofRat 0) (N.ofInt n) = true)
+    (S : Solver) (hS : Z3Correct N Q S)
+    (vars : List (String × Ty)) (As : List H) (C : H)
+    (hAs : ∀ A ∈ As, A.scoped vars = true) (hC : C.scoped vars = true)
+    (hacc : solve S vars As C = true)
+    (O : Oracle K) (σ : String → Val K) (F : String → Val K → Val K) (hadm : Admissible vars σ)
+    (hprem : ∀ A ∈ As, HoldsH N Q O σ F A) : HoldsH N Q O σ F C :=
+  solve_sound_core (relativise_nat_binders N Q U hQ) hcast S hS As C hAs hC hacc O σ F hadm hprem
+
+/-- a solver that refuses everything is correct; so is, for this goal, one that says `unsat`:
+the hypotheses are jointly satisfiable and the theorem applies to a concrete accepted goal -/
+example : Z3Correct ratNum (stdQuant Rat (fun _ _ => True)) ⟨fun _ => false⟩ := by
+  intro zs h; simp at h
+
+example : exC.scoped [("x", .nat)] = true ∧ (∀ A ∈ exAs, A.scoped [("x", .nat)] = true)
+    ∧ Admissible [("x", .nat)] exσ
+    ∧ solve ⟨fun zs => zs.length == 3⟩ [("x", .nat)] exAs exC = true := by
+  refine ⟨rfl, ?_, ?_, rfl⟩
+  · intro A hA
+    simp only [exAs, List.mem_cons, List.mem_nil_iff, or_false] at hA
+    rcases hA with rfl | rfl <;> rfl
+  · intro x hx
+    exact ⟨1, by decide, rfl⟩
 
 /-- (restatement of the definition, kept as a pin) An untranslatable conclusion is never counted as proved: nothing is negated, so the goal is
 accepted only if the translated premises are unsatisfiable by themselves. -/
